@@ -839,7 +839,7 @@ def run(ctx: vlib.Ctx):
         "harness-registered schema family in the live `schema` plugin group with a fabricated providing package "
         "(harness/qlib.py); nothing is written to /repo",
     ]
-    n_hist = ctx.budget(36, 400)
+    n_hist = ctx.budget(36, 280)
     n_ops = ctx.budget(10, 14)
     hists = pattern_histories()
     for i in range(n_hist):
